@@ -60,6 +60,10 @@ def check(repo, col, tier):
     _block(repo, col)
     _where(repo, col)
     _pad(repo, col)
+    col.rule("R-C05-padding", "surplus checkpoint steps are fed zeros (0 * NaN poisons the backward pass)", 1)
+    c06.checkpoint_padding(repo, col, "R-C05-padding")
+    col.rule("R-C05-promise", "no scatter on the gradient path promises unique / sorted indices, and shared groups are padded with the -1 sentinel", 3)
+    _promises(repo, col)
     col.rule("R-C05-taylor", "the value substituted at a removable singularity carries the derivative of the function it replaces", 2)
     _taylor(repo, col)
     col.rule("R-C05-gatediv", "divisions written in the gate functions have no unguarded removable singularity", 10)
@@ -69,6 +73,40 @@ def check(repo, col, tier):
     from . import c10
     col.rule("R-C05-derived", "geometry given at simulation time reaches the coupling conductances", 1)
     c10.derived_after_overrides(repo, col, "R-C05-derived")
+
+
+def _promises(repo, col):
+    """Parameter sharing makes the index arrays of the trainable scatters carry padding and (for overlapping groups)
+    duplicates.  `unique_indices=True` / `indices_are_sorted=True` tell XLA to skip the accumulation of duplicates: the
+    forward value is unchanged when duplicates carry equal values, but the transposed gather in the backward pass
+    over-counts them.  The padding must be the sentinel -1 (dropped out of range), not a repeated real index."""
+    R = "R-C05-promise"
+    n = 0
+    for fi in _scope(repo):
+        for c in ast.walk(fi.node):
+            if isinstance(c, ast.Call) and isinstance(c.func, ast.Attribute) and c.func.attr in ("set", "add", "get", "multiply", "min", "max") and \
+                    isinstance(c.func.value, ast.Subscript) and isinstance(c.func.value.value, ast.Attribute) and c.func.value.value.attr == "at":
+                n += 1
+                bad = [k for k in c.keywords if k.arg in ("unique_indices", "indices_are_sorted") and
+                       not (isinstance(k.value, ast.Constant) and k.value.value is False)]
+                col.check(not bad, R, fi, f"{fi.qual}: `{unparse(c)[:60]}` makes no promise about its indices", "duplicates are accumulated",
+                          f"`{unparse(c)[:90]}` passes `{bad[0].arg if bad else ''}=True`: index arrays of shared parameters contain padding and "
+                          f"duplicates; with this promise the backward pass counts them more than once (gradient of the smaller groups "
+                          f"is too large) although the forward value is unchanged", node=c)
+    mt = repo.method("Module", "make_trainable")
+    pads = [c for c in ast.walk(mt.node) if isinstance(c, ast.Call) and isinstance(c.func, ast.Attribute) and c.func.attr == "pad"]
+    if not pads:
+        col.unk(R, mt, "make_trainable pads groups of unequal size with -1", "padding call not found", node=mt.node)
+    for c in pads:
+        cv = next((k.value for k in c.keywords if k.arg == "constant_values"), None)
+        mode = next((k.value for k in c.keywords if k.arg == "mode"), None)
+        ok = cv is not None and unparse(cv).replace(" ", "") == "-1" and (mode is None or (isinstance(mode, ast.Constant) and mode.value == "constant"))
+        col.check(ok, R, mt, "make_trainable pads groups of unequal size with the sentinel -1", "np.pad(..., constant_values=-1)",
+                  f"`{unparse(c)[:80]}` pads with {('mode=' + unparse(mode)) if mode is not None else ('constant_values=' + (unparse(cv) if cv is not None else '0'))}: "
+                  f"a padded entry that is a real row index is written (and differentiated) again instead of being dropped", node=c)
+    col.info["scatters_examined"] = n
+    if n < 5:
+        raise AnalysisError(f"only {n} scatters found on the simulation path")
 
 
 def _taylor(repo, col):
